@@ -172,6 +172,10 @@ theorem enabled_iff (p : Params Idx) (conjOn covOn : Bool) (i : Idx) :
 
 /-! ### the composed statements -/
 
+/-- the local variable of the translated `run()` body that the result field `f` is filled from (looked up in the
+    regenerated program, so that renaming a local or moving the block into a helper does not change the statement) -/
+def retVar (P : ClassProg) (f : String) : String := (P.ret.lookup f).getD ""
+
 /-- **Generic form** (any translated `run()` body whose sequencing obligation checks): the run
     terminates and every tracked, present result table `T` satisfies: `T i` is non-NaN iff the
     unfiltered cell is that value and the pole passes every enabled criterion, read with the
@@ -197,11 +201,11 @@ theorem kept_iff_of_check (P : ClassProg) (req : List String) (conjOn covOn : Bo
     has `mpc_lim ≤ MPC(φ)`, with `MPC(φ) ∈ [0, 1]` (C18). -/
 theorem C09_kept_mpc (conjOn covOn : Bool) (p : Params Idx) :
     ∃ e' T, crun (semIndicators p) (initCEnv (semIndicators p) covOn Gen.prog_SSIdat.init)
-        (select conjOn covOn Gen.prog_SSIdat.prog) = some e' ∧ e' "Phis" = some (CVal.tbl T) ∧
+        (select conjOn covOn Gen.prog_SSIdat.prog) = some e' ∧ e' (retVar Gen.prog_SSIdat "Phi_poles") = some (CVal.tbl T) ∧
       ∀ i c, T i = some c → p.orig .phi i = some c ∧
         ∃ n v q, c = .shape n v ∧ mpcClosed? n v = some q ∧ p.mpcLim ≤ q ∧ 0 ≤ q ∧ q ≤ 1 := by
   obtain ⟨e', he', h⟩ := kept_iff_of_check Gen.prog_SSIdat requiredSSI conjOn covOn (C09_seq_SSIdat conjOn covOn) p
-  obtain ⟨T, hT, hiff⟩ := h "Phi_poles" "Phis" .phi (by decide) rfl rfl
+  obtain ⟨T, hT, hiff⟩ := h "Phi_poles" (retVar Gen.prog_SSIdat "Phi_poles") .phi (by decide) rfl rfl
   refine ⟨e', T, he', hT, ?_⟩
   intro i c hc
   obtain ⟨ho, _, _, _, ⟨n, v, q, hs, hq, hl⟩, _⟩ := (hiff i c).mp hc
@@ -222,12 +226,12 @@ theorem C09_kept_mpc (conjOn covOn : Bool) (p : Params Idx) :
     has `MPD(φ) ≤ mpd_lim`, with `MPD(φ) ∈ [0, π/2]` (C18). -/
 theorem C09_kept_mpd (conjOn covOn : Bool) (p : Params Idx) :
     ∃ e' T, crun (semIndicators p) (initCEnv (semIndicators p) covOn Gen.prog_SSIdat.init)
-        (select conjOn covOn Gen.prog_SSIdat.prog) = some e' ∧ e' "Phis" = some (CVal.tbl T) ∧
+        (select conjOn covOn Gen.prog_SSIdat.prog) = some e' ∧ e' (retVar Gen.prog_SSIdat "Phi_poles") = some (CVal.tbl T) ∧
       ∀ i c, T i = some c → p.orig .phi i = some c ∧
         ∃ n v, c = .shape n v ∧ shapeNonZero n v = true ∧ mpdVal p n v ≤ (p.mpdLim : ℝ)
           ∧ 0 ≤ mpdVal p n v ∧ mpdVal p n v ≤ Real.pi / 2 := by
   obtain ⟨e', he', h⟩ := kept_iff_of_check Gen.prog_SSIdat requiredSSI conjOn covOn (C09_seq_SSIdat conjOn covOn) p
-  obtain ⟨T, hT, hiff⟩ := h "Phi_poles" "Phis" .phi (by decide) rfl rfl
+  obtain ⟨T, hT, hiff⟩ := h "Phi_poles" (retVar Gen.prog_SSIdat "Phi_poles") .phi (by decide) rfl rfl
   refine ⟨e', T, he', hT, ?_⟩
   intro i c hc
   obtain ⟨ho, _, _, ⟨n, v, hs, hnz, hl⟩, _, _⟩ := (hiff i c).mp hc
@@ -239,11 +243,11 @@ theorem C09_kept_mpd (conjOn covOn : Bool) (p : Params Idx) :
     and lies in `(0, ξ_max)`; the same pole's shape passes the MPC and MPD criteria. -/
 theorem C09_kept_damp (conjOn covOn : Bool) (p : Params Idx) :
     ∃ e' T, crun (semIndicators p) (initCEnv (semIndicators p) covOn Gen.prog_SSIdat.init)
-        (select conjOn covOn Gen.prog_SSIdat.prog) = some e' ∧ e' "Xis" = some (CVal.tbl T) ∧
+        (select conjOn covOn Gen.prog_SSIdat.prog) = some e' ∧ e' (retVar Gen.prog_SSIdat "Xi_poles") = some (CVal.tbl T) ∧
       ∀ i c, T i = some c → p.orig .xi i = some c ∧
         (∃ x, c = .real x ∧ 0 < x ∧ x < p.xiMax) ∧ MpcOk p i ∧ MpdOk p i := by
   obtain ⟨e', he', h⟩ := kept_iff_of_check Gen.prog_SSIdat requiredSSI conjOn covOn (C09_seq_SSIdat conjOn covOn) p
-  obtain ⟨T, hT, hiff⟩ := h "Xi_poles" "Xis" .xi (by decide) rfl rfl
+  obtain ⟨T, hT, hiff⟩ := h "Xi_poles" (retVar Gen.prog_SSIdat "Xi_poles") .xi (by decide) rfl rfl
   refine ⟨e', T, he', hT, ?_⟩
   intro i c hc
   obtain ⟨ho, _, ⟨x, hx, h0, h1⟩, hmpd, hmpc, _⟩ := (hiff i c).mp hc
@@ -255,13 +259,13 @@ theorem C09_kept_damp (conjOn covOn : Bool) (p : Params Idx) :
 theorem C09_kept_converse (conjOn covOn : Bool) (p : Params Idx) :
     ∃ e' Tf Tx Tp, crun (semIndicators p) (initCEnv (semIndicators p) covOn Gen.prog_SSIdat.init)
         (select conjOn covOn Gen.prog_SSIdat.prog) = some e' ∧
-      e' "Fns" = some (CVal.tbl Tf) ∧ e' "Xis" = some (CVal.tbl Tx) ∧ e' "Phis" = some (CVal.tbl Tp) ∧
+      e' (retVar Gen.prog_SSIdat "Fn_poles") = some (CVal.tbl Tf) ∧ e' (retVar Gen.prog_SSIdat "Xi_poles") = some (CVal.tbl Tx) ∧ e' (retVar Gen.prog_SSIdat "Phi_poles") = some (CVal.tbl Tp) ∧
       ∀ i, (conjOn = true → ConjOk p i) → DampOk p i → MpdOk p i → MpcOk p i → (covOn = true → CovOk p i) →
         Tf i = p.orig .fn i ∧ Tx i = p.orig .xi i ∧ Tp i = p.orig .phi i := by
   obtain ⟨e', he', h⟩ := kept_iff_of_check Gen.prog_SSIdat requiredSSI conjOn covOn (C09_seq_SSIdat conjOn covOn) p
-  obtain ⟨Tf, hTf, hf⟩ := h "Fn_poles" "Fns" .fn (by decide) rfl rfl
-  obtain ⟨Tx, hTx, hx⟩ := h "Xi_poles" "Xis" .xi (by decide) rfl rfl
-  obtain ⟨Tp, hTp, hp⟩ := h "Phi_poles" "Phis" .phi (by decide) rfl rfl
+  obtain ⟨Tf, hTf, hf⟩ := h "Fn_poles" (retVar Gen.prog_SSIdat "Fn_poles") .fn (by decide) rfl rfl
+  obtain ⟨Tx, hTx, hx⟩ := h "Xi_poles" (retVar Gen.prog_SSIdat "Xi_poles") .xi (by decide) rfl rfl
+  obtain ⟨Tp, hTp, hp⟩ := h "Phi_poles" (retVar Gen.prog_SSIdat "Phi_poles") .phi (by decide) rfl rfl
   refine ⟨e', Tf, Tx, Tp, he', hTf, hTx, hTp, ?_⟩
   intro i h1 h2 h3 h4 h5
   have key : ∀ (T : Idx → Option Cell) (o : Tbl),
@@ -280,11 +284,11 @@ theorem C09_kept_converse (conjOn covOn : Bool) (p : Params Idx) :
     `kept_iff_of_check` with the corresponding `C09_seq_*`. Example: pLSCF, `Phi_poles`. -/
 theorem C09_kept_iff_pLSCF (conjOn : Bool) (p : Params Idx) :
     ∃ e' T, crun (semIndicators p) (initCEnv (semIndicators p) false Gen.prog_pLSCF.init)
-        (select conjOn false Gen.prog_pLSCF.prog) = some e' ∧ e' "Phis" = some (CVal.tbl T) ∧
+        (select conjOn false Gen.prog_pLSCF.prog) = some e' ∧ e' (retVar Gen.prog_pLSCF "Phi_poles") = some (CVal.tbl T) ∧
       ∀ i c, T i = some c ↔ (p.orig .phi i = some c ∧ (conjOn = true → ConjOk p i) ∧ DampOk p i ∧ MpdOk p i
         ∧ MpcOk p i) := by
   obtain ⟨e', he', h⟩ := kept_iff_of_check Gen.prog_pLSCF requiredPLSCF conjOn false (C09_seq_pLSCF conjOn) p
-  obtain ⟨T, hT, hiff⟩ := h "Phi_poles" "Phis" .phi (by decide) rfl rfl
+  obtain ⟨T, hT, hiff⟩ := h "Phi_poles" (retVar Gen.prog_pLSCF "Phi_poles") .phi (by decide) rfl rfl
   refine ⟨e', T, he', hT, ?_⟩
   intro i c
   rw [hiff i c]
